@@ -17,9 +17,21 @@ type qdrv struct{ q *fed.VerifQueue }
 
 func (d *qdrv) dump() string {
 	ids, cur, cid, nid, closed := d.q.Dump()
-	s := make([]string, len(ids))
-	for i, v := range ids {
-		s[i] = strconv.FormatUint(v, 10)
+	lst := "[]"
+	if len(ids) > 0 {
+		consecutive := true
+		for i, v := range ids {
+			consecutive = consecutive && v == ids[0]+uint64(i)
+		}
+		if consecutive {
+			lst = fmt.Sprintf("[%d..%d]", ids[0], ids[len(ids)-1])
+		} else {
+			s := make([]string, len(ids))
+			for i, v := range ids {
+				s[i] = strconv.FormatUint(v, 10)
+			}
+			lst = "[" + strings.Join(s, ",") + "]"
+		}
 	}
 	c := "nil"
 	if cur != "nil" {
@@ -29,7 +41,7 @@ func (d *qdrv) dump() string {
 	if closed {
 		cl = 1
 	}
-	return fmt.Sprintf("l=[%s] cur=%s nid=%d closed=%d", strings.Join(s, ","), c, nid, cl)
+	return fmt.Sprintf("l=%s cur=%s nid=%d closed=%d", lst, c, nid, cl)
 }
 
 func tagEvent(tag string) *fed.Event {
